@@ -266,6 +266,29 @@ CHECKS['C15'] = dict(
          'external links in .xlsx are not generated.',
     technique='Lean 4 proof (evaluation locality on the workbook model) + partial-vs-full differential check')
 
+CHECKS['C12'] = dict(
+    text=('Lean 4 reference definitions (XL.Model.Fn) of the listed functions written from the Excel documentation: logical (IF, IFS, '
+          'SWITCH, AND, OR, XOR, NOT, IFERROR, IFNA), information (IS... family, ISODD, ISEVEN), aggregation (SUM, PRODUCT, SUMSQ, '
+          'AVERAGE, MIN, MAX, COUNT, COUNTA, COUNTBLANK, MEDIAN, VAR/STDEV families, LARGE, SMALL), element-wise mathematics (ABS, '
+          'INT, SIGN, SQRT, EXP, LN, LOG, LOG10, POWER, MOD, ROUND, ROUNDUP, ROUNDDOWN, TRUNC, CEILING, FLOOR, EVEN, ODD, '
+          'trigonometry; rounding on the exact decimal of the shortest text of the double) and text (LEN, LEFT, RIGHT, MID, UPPER, '
+          'LOWER, TRIM, CONCAT, CONCATENATE, FIND, SEARCH, REPLACE, SUBSTITUTE, TEXTJOIN, VALUE). Theorems (XL.Props.C12): '
+          'is_partition / is_relations; agg_direct / agg_in_range / agg_error (referenced vs typed arguments); sum_perm, '
+          'product_perm, count_perm (order invariance for commutative associative arithmetic); round_nearest, roundup_away, '
+          'rounddown_toward, round_neg, round_1005 (decimal rounding); ceiling_multiple, floor_multiple, even_spec, odd_spec; '
+          'switch_first, xor_parity; left_mid_split, len_concat, replace_all, replace_nothing, find_sound. The check evaluates '
+          'every function through compiled formulas on generated argument tuples (typed directly / ranges of every shape, '
+          'numbers incl. 1.15 2.675 1.005 0.3, numeric text, text, logicals, blanks, errors) and compares with the model; '
+          'numbers exactly, except transcendental kernels and the variance family (1e-12 relative).'),
+    design='DESIGN.md §3 C12, §9',
+    note=COMMON_NOTE + 'The reference definitions are the property\'s own subject (the Excel definitions): a disagreement is reported '
+         'as a violation with the call as failing input. Trusted: my reading of the documentation; libm vs numpy kernels to '
+         '1e-12; the decimal idealisation of rounding. Restricted domains: MOD on integers / halves / quarters (binary '
+         'quotients of decimals), ASCII text, LARGE/SMALL with integer k, TEXTJOIN with one delimiter. Fixed by this check: '
+         'rounding family, ISNUMBER, SWITCH, numeric text in AVERAGE/MIN/MAX/MEDIAN/VAR/STDEV, SEARCH wildcards, PRODUCT with '
+         'FALSE. Known findings: value-formatted-text, logical-text-literal, count-literals.',
+    technique='Lean 4 reference definitions with proved laws + differential check of the implementation against the executable definitions')
+
 CHECKS['C13'] = dict(
     text=('Lean 4 theorems (XL.Props.C13): volatile_registered (NOW, TODAY, RAND, RANDBETWEEN carry the COMPILING extra '
           'input in the function table generated from the source), compile_time_value (the model of the compile-time '
